@@ -110,6 +110,7 @@ def main(argv=None):
             mod.thorough(vc)
         vc.discharge()
         code = triage(vc, mod, report, args)
+        code = run_native_standins(vc, prop, report, code)
     except source.SourceError as e:
         report["errors"].append(f"SourceError: {e}")
         code = 3
@@ -274,6 +275,30 @@ def triage(vc, mod, report, args):
     return code
 
 
+def run_native_standins(vc, prop, report, code):
+    """bounded stand-ins that run the real code natively on a stated, finite set of inputs (never counted as proved)"""
+    for k, chk in enumerate(getattr(vc, "native_standins", [])):
+        d = os.path.join(ROOT, "replays", prop)
+        os.makedirs(d, exist_ok=True)
+        script = os.path.join(d, f"{prop}_bounded_standin_{k}_replay.py")
+        with open(script, "w") as f:
+            f.write(f"# bounded stand-in of {prop}: {chk['name']}\n# bound: {chk['bound']}\nimport sys\nsys.path.insert(0, {ROOT!r})\n" + chk["script"])
+        status, out = run_replay(script, timeout=chk.get("timeout", 900))
+        chk["status"] = status
+        chk["output_tail"] = out.strip().splitlines()[-5:]
+        if status == "reproduced":
+            meta = script.replace("_replay.py", ".json")
+            with open(meta, "w") as f:
+                json.dump({"property": prop, "obligation": f"{prop}/bounded-standin/{chk['name']}", "script": os.path.relpath(script, ROOT),
+                           "description": chk["bound"], "output": out[-4000:]}, f, indent=1)
+            report["violations"].append(f"VIOLATION property={prop} replay={os.path.relpath(meta, ROOT)} obligation={prop}/bounded-standin/{chk['name']}")
+            code = 1 if code in (0, 1, 2) else code
+        elif status != "not-reproduced":
+            report["errors"].append(f"bounded stand-in {chk['name']}: {status}: {out.strip().splitlines()[-1] if out.strip() else ''}")
+            code = max(code, 3) if code != 1 else code
+    return code
+
+
 def write_evidence(vc, mod, report, args, seed, wall, code):
     st = vc.by_status() if all(o.result for o in vc.obligations) else None
     known_whole = [o for o in vc.obligations if getattr(o, "known_whole", None) and any(
@@ -330,7 +355,8 @@ def write_evidence(vc, mod, report, args, seed, wall, code):
         "opaque_operations_assumed_pure": sorted(vc.opaque_ops)[:60],
         "trusted_base": sorted(vc.trusted) + ["pyvc symbolic executor (DESIGN.md 2) and its Python semantics",
                                               "z3 4.x/5.x, cvc5, sympy"],
-        "bounded_standins": vc.bounded,
+        "bounded_standins": vc.bounded + [{"function": c["name"], "bound": c["bound"], "status": c.get("status"), "kind": "native run of the real code"}
+                                          for c in getattr(vc, "native_standins", [])],
         "extraction_drops": ["docstrings", "type annotations", "logger.* / warnings.warn calls (no-ops)",
                              "decorators @jit/@np.errstate"],
         "known_findings_reported": report["known"],
